@@ -1,3 +1,448 @@
 import KoordVerif.Model.C10
+import KoordVerif.Proofs.C10Policy
+/-
+C10 — property theorems (DESIGN.md §4 C10).  All amounts are milli-CPU integers.
+`FloatOK` lists the only facts assumed about the float64 computations (tested on every generated
+input by the harness, fingerprint `C10:float-assumption`).
+-/
 namespace KoordVerif.C10
+
+/-- what the theorems assume about the float64 computations. -/
+structure FloatOK (f : FloatOps) : Prop where
+  /-- milli -> cores -> milli of the node reservation loses at most one milli-CPU (e.g. 1001 -> 1000). -/
+  rt_le : ∀ m, 0 ≤ m → f.rt m ≤ m
+  rt_ge : ∀ m, 0 ≤ m → m - 1 ≤ f.rt m
+  /-- `ceil(m/1000)`. -/
+  ceilMilli_eq : ∀ m, f.ceilMilli m = -((-m) / 1000)
+  /-- `ceil(n*0.1)`. -/
+  stepCpus_eq : ∀ n, 0 ≤ n → f.stepCpus n = (n + 9) / 10
+  bypass_iff : ∀ q cur c, 0 ≤ c → (f.bypassLt q cur c = true ↔ (q - cur < c * 1000 ∧ cur - q < c * 1000))
+  step_iff : ∀ q cur c, 0 ≤ c → (f.stepGt q cur c = true ↔ q - cur > c * 10000)
+  stepInc_eq : ∀ c, 0 ≤ c → f.stepInc c = c * 10000
+
+/-- the exact-arithmetic instance (non-vacuity of `FloatOK`; also what the harness compares the floats with). -/
+def exactOps : FloatOps where
+  rt m := m
+  ceilMilli m := -((-m) / 1000)
+  stepCpus n := (n + 9) / 10
+  bypassLt q cur c := decide (q - cur < c * 1000 ∧ cur - q < c * 1000)
+  stepGt q cur c := decide (q - cur > c * 10000)
+  stepInc c := c * 10000
+
+example : FloatOK exactOps := by
+  refine ⟨?_, ?_, ?_, ?_, ?_, ?_, ?_⟩ <;> intros <;> simp [exactOps] <;> omega
+
+/-! ### 1. the budget -/
+
+/-- the system term is `max(node usage − all pods − all host apps, 0, node reservation)`, up to the
+    one milli-CPU the float round trip of the reservation may lose. -/
+theorem system_term (f : FloatOps) (hf : FloatOK f) (node pa aa R : Int) (hR : 0 ≤ R) :
+    max (max (node - pa - aa) 0) R - 1 ≤ systemUsed f node pa aa R ∧
+    systemUsed f node pa aa R ≤ max (max (node - pa - aa) 0) R ∧
+    (f.rt R = R → systemUsed f node pa aa R = max (max (node - pa - aa) 0) R) := by
+  have h1 := hf.rt_le R hR
+  have h2 := hf.rt_ge R hR
+  unfold systemUsed
+  simp only []
+  by_cases h0 : node - pa - aa < 0 <;> simp only [h0, if_true, if_false] <;>
+    (split <;> refine ⟨by omega, by omega, fun h => by omega⟩)
+
+/-- budget = capacity × threshold − non-BE pods − non-BE host apps − system term, floored by
+    capacity × min percent (the statement's formula; `S` is characterised by `system_term`). -/
+theorem budget_eq (f : FloatOps) (cap thr : Int) (minPct : Option Int) (R node pa pf aa af : Int)
+    (hc : 0 ≤ cap) (ht : 0 ≤ thr) :
+    budgetAgg f cap thr minPct R node pa pf aa af =
+      match minPct with
+      | none => cap * thr / 100 - pf - af - systemUsed f node pa aa R
+      | some m => max (cap * thr / 100 - pf - af - systemUsed f node pa aa R) (Int.tdiv (cap * m) 100) := by
+  unfold budgetAgg
+  have : 0 ≤ cap * thr := Int.mul_nonneg hc ht
+  rw [Int.tdiv_eq_ediv_of_nonneg this]
+  cases minPct with
+  | none => rfl
+  | some m => simp only []; split <;> omega
+
+/-- the budget is at least the configured floor. -/
+theorem budget_ge_min (f : FloatOps) (cap thr m R node pa pf aa af : Int) :
+    Int.tdiv (cap * m) 100 ≤ budgetAgg f cap thr (some m) R node pa pf aa af := by
+  unfold budgetAgg
+  simp only []
+  split <;> omega
+
+/-- the budget does not grow when non-BE pod usage grows by `dp`, non-BE host application usage
+    by `da`, and the node-level usage by any `dn ≥ 0` (system growth, and/or the node metric
+    seeing the same pod growth). -/
+theorem budget_antitone (f : FloatOps) (hf : FloatOK f) (cap thr : Int) (minPct : Option Int)
+    (R node pa pf aa af dp da dn : Int) (hR : 0 ≤ R) (hdp : 0 ≤ dp) (hda : 0 ≤ da) (hdn : 0 ≤ dn) :
+    budgetAgg f cap thr minPct R (node + dn) (pa + dp) (pf + dp) (aa + da) (af + da) ≤
+      budgetAgg f cap thr minPct R node pa pf aa af := by
+  have h1 := hf.rt_le R hR
+  have h2 := hf.rt_ge R hR
+  have hs : systemUsed f node pa aa R - dp - da ≤ systemUsed f (node + dn) (pa + dp) (aa + da) R := by
+    unfold systemUsed
+    simp only []
+    (repeat' split) <;> omega
+  unfold budgetAgg
+  cases minPct with
+  | none => simp only []; omega
+  | some m => simp only []; (repeat' split) <;> omega
+
+theorem sum_bump (l₁ l₂ : List Int) (x d : Int) : (l₁ ++ (x + d) :: l₂).sum = (l₁ ++ x :: l₂).sum + d := by
+  simp only [List.sum_append, List.sum_cons]; omega
+
+/-- list form: raising the usage of one pod that counts as non-BE never raises the budget. -/
+theorem budget_antitone_pod (f : FloatOps) (hf : FloatOK f) (cap alloc anno thr : Int) (minPct : Option Int)
+    (node : Int) (ps₁ ps₂ : List PodU) (p : PodU) (apps : List AppU) (d : Int) (hd : 0 ≤ d)
+    (hp : p.counted = true) :
+    budget f cap alloc anno thr minPct node (ps₁ ++ { p with used := p.used + d } :: ps₂) apps ≤
+      budget f cap alloc anno thr minPct node (ps₁ ++ p :: ps₂) apps := by
+  have hR : 0 ≤ nodeReserved cap alloc anno := by
+    unfold nodeReserved; simp only []; split <;> split <;> omega
+  have hc : ({ p with used := p.used + d } : PodU).counted = true := by
+    simpa [PodU.counted] using hp
+  have e1 : podsAll (ps₁ ++ { p with used := p.used + d } :: ps₂) = podsAll (ps₁ ++ p :: ps₂) + d := by
+    simp only [podsAll, List.map_append, List.map_cons]; exact sum_bump _ _ _ _
+  have e2 : podsCounted (ps₁ ++ { p with used := p.used + d } :: ps₂) = podsCounted (ps₁ ++ p :: ps₂) + d := by
+    simp only [podsCounted, List.filter_append, List.filter_cons, hc, hp, if_true, List.map_append, List.map_cons]
+    exact sum_bump _ _ _ _
+  unfold budget
+  rw [e1, e2]
+  have := budget_antitone f hf cap thr minPct (nodeReserved cap alloc anno) node (podsAll (ps₁ ++ p :: ps₂))
+    (podsCounted (ps₁ ++ p :: ps₂)) (appsAll apps) (appsCounted apps) d 0 0 hR hd (Int.le_refl 0) (Int.le_refl 0)
+  simpa using this
+
+/-! ### 2. the split between the LSR pool and the LS pool -/
+
+theorem split_fits (c : Int) (L S : Nat) (hc : 0 ≤ c) (hle : c ≤ (L : Int) + S) (hpos : 0 < (L : Int) + S) :
+    0 ≤ Int.tdiv (c * L) ((L : Int) + S) ∧ Int.tdiv (c * L) ((L : Int) + S) ≤ L ∧
+    c - Int.tdiv (c * L) ((L : Int) + S) ≤ S ∧ Int.tdiv (c * L) ((L : Int) + S) ≤ c := by
+  have hL : (0 : Int) ≤ L := Int.natCast_nonneg L
+  have hS : (0 : Int) ≤ S := Int.natCast_nonneg S
+  have hcl : 0 ≤ c * L := Int.mul_nonneg hc hL
+  rw [Int.tdiv_eq_ediv_of_nonneg hcl]
+  refine ⟨Int.ediv_nonneg hcl (by omega), ?_, ?_, ?_⟩
+  · apply Int.ediv_le_of_le_mul hpos
+    have := Int.mul_le_mul_of_nonneg_right hle hL
+    rw [Int.mul_comm (L : Int) ((L : Int) + S)]
+    exact this
+  · have h1 : (c - S) * ((L : Int) + S) ≤ c * L := by
+      have h2 : 0 ≤ (S : Int) * ((L : Int) + S - c) := Int.mul_nonneg hS (by omega)
+      have h3 : (c - S) * ((L : Int) + S) = c * L - (S : Int) * ((L : Int) + S - c) := by
+        simp only [Int.sub_mul, Int.mul_add, Int.mul_sub]
+        have := Int.mul_comm (S : Int) (L : Int)
+        have := Int.mul_comm (S : Int) c
+        omega
+      omega
+    have := Int.le_ediv_of_mul_le hpos h1
+    omega
+  · apply Int.ediv_le_of_le_mul hpos
+    have : c * (L : Int) ≤ c * ((L : Int) + S) := Int.mul_le_mul_of_nonneg_left (by omega) hc
+    exact this
+
+/-! ### 3./4. the selection inside one pool (`policy` = calculateBESuppressCPUSetPolicy) -/
+
+/-- enough CPUs ⇒ exactly `k` pairwise distinct CPUs of the list, for every topology with distinct CPU ids. -/
+theorem policy_exact (k : Int) (ps : List Proc) (hnd : (cpusOf ps).Nodup) (hk0 : 0 ≤ k) (hkn : k ≤ ps.length) :
+    (policy k ps).Nodup ∧ (∀ x ∈ policy k ps, x ∈ cpusOf ps) ∧ (policy k ps).length = k :=
+  policy_spec k ps hnd hk0 hkn
+
+/-- fewer CPUs than asked for ⇒ nothing. -/
+theorem policy_short_empty (k : Int) (ps : List Proc) (h : (ps.length : Int) < k) : policy k ps = [] :=
+  policy_short k ps h
+
+/-- for every `k`: distinct, from the list, never more than `k`. -/
+theorem policy_sound (k : Int) (ps : List Proc) (hnd : (cpusOf ps).Nodup) :
+    (policy k ps).Nodup ∧ (∀ x ∈ policy k ps, x ∈ cpusOf ps) ∧ ((policy k ps).length : Int) ≤ max k 0 := by
+  obtain ⟨a, b, c⟩ := policy_general k ps hnd
+  refine ⟨a, b, ?_⟩
+  rcases c with c | c <;> omega
+
+/-! ### 5.–7. adjustByCPUSet -/
+
+theorem mem_lsrPool {pods : List PodC} {res sys : List Int} {procs : List Proc} {x : Int}
+    (h : x ∈ cpusOf (lsrPool pods res sys procs)) :
+    x ∈ cpusOf procs ∧ x ∉ res ∧ x ∉ sys ∧ poolOf pods x = qLSR := by
+  obtain ⟨p, hp, rfl⟩ := List.mem_map.mp h
+  obtain ⟨hp1, hp2⟩ := List.mem_filter.mp hp
+  simp only [eligible, Bool.and_eq_true, Bool.not_eq_true', Bool.or_eq_false_iff, beq_iff_eq] at hp2
+  refine ⟨List.mem_map.mpr ⟨p, hp1, rfl⟩, ?_, ?_, hp2.2⟩
+  · simpa using hp2.1.1
+  · simpa using hp2.1.2
+
+theorem mem_lsPool {pods : List PodC} {res sys : List Int} {procs : List Proc} {x : Int}
+    (h : x ∈ cpusOf (lsPool pods res sys procs)) :
+    x ∈ cpusOf procs ∧ x ∉ res ∧ x ∉ sys ∧ poolOf pods x ≠ qLSR ∧ poolOf pods x ≠ qLSE := by
+  obtain ⟨p, hp, rfl⟩ := List.mem_map.mp h
+  obtain ⟨hp1, hp2⟩ := List.mem_filter.mp hp
+  simp only [eligible, Bool.and_eq_true, Bool.not_eq_true', Bool.or_eq_false_iff, beq_eq_false_iff_ne,
+    bne_iff_ne] at hp2
+  refine ⟨List.mem_map.mpr ⟨p, hp1, rfl⟩, ?_, ?_, hp2.1.2, hp2.2⟩
+  · simpa using hp2.1.1.1
+  · simpa using hp2.1.1.2
+
+theorem pool_nodup {procs : List Proc} (hnd : (cpusOf procs).Nodup) (q : Proc → Bool) :
+    (cpusOf (procs.filter q)).Nodup :=
+  List.Nodup.sublist (List.Sublist.map _ List.filter_sublist) hnd
+
+/-- a CPU claimed by a valid LSE pod and by no valid pod of another class is in the LSE pool. -/
+theorem exclusively_lse (pods : List PodC) (c : Int)
+    (hown : ∃ p ∈ pods, p.valid = true ∧ p.qos = qLSE ∧ c ∈ p.cpus)
+    (hexcl : ∀ q ∈ pods, q.valid = true → c ∈ q.cpus → q.qos = qLSE) : poolOf pods c = qLSE := by
+  unfold poolOf
+  have key : ∀ (l : List PodC) (acc : Int), (∀ q ∈ l, q.valid = true → c ∈ q.cpus → q.qos = qLSE) →
+      (acc = qLSE ∨ ∃ p ∈ l, p.valid = true ∧ p.qos = qLSE ∧ c ∈ p.cpus) →
+      l.foldl (fun acc p => if p.valid && p.cpus.contains c then p.qos else acc) acc = qLSE := by
+    intro l
+    induction l with
+    | nil =>
+      intro acc _ h
+      rcases h with h | ⟨p, hp, _⟩
+      · simpa using h
+      · cases hp
+    | cons p ps ih =>
+      intro acc hq h
+      simp only [List.foldl_cons]
+      apply ih _ (fun q hq' => hq q (List.mem_cons_of_mem _ hq'))
+      by_cases hm : (p.valid && p.cpus.contains c) = true
+      · left
+        simp only [hm, if_true]
+        simp only [Bool.and_eq_true, List.contains_iff_mem] at hm
+        exact hq p (by simp) hm.1 hm.2
+      · simp only [hm]
+        rcases h with h | ⟨p', hp', hv, hl, hc⟩
+        · left; simpa using h
+        · rcases List.mem_cons.mp hp' with rfl | hp''
+          · exfalso; apply hm; simp [hv, hc]
+          · right; exact ⟨p', hp'', hv, hl, hc⟩
+  exact key pods qNone hexcl (Or.inr hown)
+
+theorem applyResult_ne_panic (out : List Int) : applyResult out ≠ .panic := by
+  unfold applyResult; split <;> simp
+
+theorem applyResult_write {out cs : List Int} (h : applyResult out = .write cs) : cs = out ∧ out ≠ [] := by
+  unfold applyResult at h
+  split at h
+  · cases h
+  · rename_i he
+    simp only [Outcome.write.injEq] at h
+    exact ⟨h.symm, fun e => he (by simp [e])⟩
+
+theorem applyResult_of_ne_nil {out : List Int} (h : out ≠ []) : applyResult out = .write out := by
+  unfold applyResult
+  split
+  · rename_i he; exact absurd (List.isEmpty_iff.mp he) h
+  · rfl
+
+/-- the computation never panics — in particular not when no CPU is eligible. -/
+theorem total_no_panic (f : FloatOps) (b : Int) (oldN : Nat) (procs : List Proc) (pods : List PodC)
+    (res sys : List Int) : adjustCPUSet f b oldN procs pods res sys ≠ .panic := by
+  unfold adjustCPUSet
+  simp only []
+  split
+  · simp
+  · rename_i h
+    have : ((lsrPool pods res sys procs).length : Int) + (lsPool pods res sys procs).length ≠ 0 := by omega
+    simp only [goDiv, this, if_false]
+    exact applyResult_ne_panic _
+
+/-- no eligible CPU: the BE cpuset is left as it is. -/
+theorem none_eligible_untouched (f : FloatOps) (b : Int) (oldN : Nat) (procs : List Proc) (pods : List PodC)
+    (res sys : List Int) (h : (lsrPool pods res sys procs).length + (lsPool pods res sys procs).length = 0) :
+    adjustCPUSet f b oldN procs pods res sys = .untouched := by
+  unfold adjustCPUSet
+  simp [h]
+
+/-- the wanted number of CPUs: at least two, at most max(⌈budget/1000⌉, 2), and at most
+    `|old| + ⌈n/10⌉` (step limit). -/
+theorem target_bounds (f : FloatOps) (hf : FloatOK f) (b : Int) (oldN n : Nat) :
+    targetCpus f b oldN n ≤ max (-((-b) / 1000)) 2 ∧
+    targetCpus f b oldN n ≤ (oldN : Int) + ((n : Int) + 9) / 10 ∧
+    (targetCpus f b oldN n = max (-((-b) / 1000)) 2 ∨ targetCpus f b oldN n = (oldN : Int) + ((n : Int) + 9) / 10) ∧
+    0 ≤ targetCpus f b oldN n ∧ (0 < n → 1 ≤ targetCpus f b oldN n) := by
+  unfold targetCpus
+  rw [hf.ceilMilli_eq, hf.stepCpus_eq n (Int.natCast_nonneg n)]
+  simp only [beMinCPUSetCores]
+  by_cases h1 : -((-b) / 1000) < 2
+  · simp only [h1, if_true]
+    by_cases h2 : 2 - (oldN : Int) > ((n : Int) + 9) / 10 <;> simp only [h2, if_true, if_false] <;>
+      refine ⟨?_, ?_, ?_, ?_, fun hn => ?_⟩ <;> omega
+  · simp only [h1, if_false]
+    by_cases h2 : -((-b) / 1000) - (oldN : Int) > ((n : Int) + 9) / 10 <;> simp only [h2, if_true, if_false] <;>
+      refine ⟨?_, ?_, ?_, ?_, fun hn => ?_⟩ <;> omega
+
+/-- whatever is written: pairwise distinct existing CPUs, none reserved / system-exclusive / in the
+    LSE pool, and no more than the wanted number. -/
+theorem written_sound (f : FloatOps) (hf : FloatOK f) (b : Int) (oldN : Nat) (procs : List Proc) (pods : List PodC)
+    (res sys cs : List Int) (hnd : (cpusOf procs).Nodup)
+    (hw : adjustCPUSet f b oldN procs pods res sys = .write cs) :
+    cs.Nodup ∧ (∀ c ∈ cs, c ∈ cpusOf procs ∧ c ∉ res ∧ c ∉ sys ∧ poolOf pods c ≠ qLSE) ∧
+    (cs.length : Int) ≤ targetCpus f b oldN procs.length := by
+  unfold adjustCPUSet at hw
+  simp only [] at hw
+  split at hw
+  · cases hw
+  · rename_i hne
+    have hpos : (0 : Int) < ((lsrPool pods res sys procs).length : Int) + (lsPool pods res sys procs).length := by omega
+    have hne' : ((lsrPool pods res sys procs).length : Int) + (lsPool pods res sys procs).length ≠ 0 := by omega
+    simp only [goDiv, hne', if_false] at hw
+    obtain ⟨_, _, _, hc0, _⟩ := target_bounds f hf b oldN procs.length
+    generalize targetCpus f b oldN procs.length = c at hw hc0 ⊢
+    have hL : (0 : Int) ≤ (lsrPool pods res sys procs).length := Int.natCast_nonneg _
+    have hS : (0 : Int) ≤ (lsPool pods res sys procs).length := Int.natCast_nonneg _
+    have hcl : 0 ≤ c * ((lsrPool pods res sys procs).length : Int) := Int.mul_nonneg hc0 hL
+    have hq0 : 0 ≤ Int.tdiv (c * (lsrPool pods res sys procs).length)
+        (((lsrPool pods res sys procs).length : Int) + (lsPool pods res sys procs).length) :=
+      Int.tdiv_nonneg hcl (by omega)
+    have hqc : Int.tdiv (c * (lsrPool pods res sys procs).length)
+        (((lsrPool pods res sys procs).length : Int) + (lsPool pods res sys procs).length) ≤ c := by
+      rw [Int.tdiv_eq_ediv_of_nonneg hcl]
+      apply Int.ediv_le_of_le_mul hpos
+      exact Int.mul_le_mul_of_nonneg_left (by omega) hc0
+    generalize Int.tdiv (c * (lsrPool pods res sys procs).length)
+        (((lsrPool pods res sys procs).length : Int) + (lsPool pods res sys procs).length) = q at hw hq0 hqc
+    obtain ⟨a1, a2, a3⟩ := policy_sound q (lsrPool pods res sys procs) (pool_nodup hnd _)
+    obtain ⟨b1, b2, b3⟩ := policy_sound (c - q) (lsPool pods res sys procs) (pool_nodup hnd _)
+    have hA : ∀ x ∈ (if q > 0 then policy q (lsrPool pods res sys procs) else []),
+        x ∈ cpusOf (lsrPool pods res sys procs) := by
+      intro x hx; split at hx
+      · exact a2 x hx
+      · cases hx
+    have hB : ∀ x ∈ (if c - q > 0 then policy (c - q) (lsPool pods res sys procs) else []),
+        x ∈ cpusOf (lsPool pods res sys procs) := by
+      intro x hx; split at hx
+      · exact b2 x hx
+      · cases hx
+    have hAn : (if q > 0 then policy q (lsrPool pods res sys procs) else []).Nodup := by
+      split
+      · exact a1
+      · exact List.nodup_nil
+    have hBn : (if c - q > 0 then policy (c - q) (lsPool pods res sys procs) else []).Nodup := by
+      split
+      · exact b1
+      · exact List.nodup_nil
+    have hAl : ((if q > 0 then policy q (lsrPool pods res sys procs) else []).length : Int) ≤ q := by
+      split
+      · omega
+      · simp; omega
+    have hBl : ((if c - q > 0 then policy (c - q) (lsPool pods res sys procs) else []).length : Int) ≤ c - q := by
+      split
+      · omega
+      · simp; omega
+    obtain ⟨hw', _⟩ := applyResult_write hw
+    subst hw'
+    refine ⟨?_, ?_, ?_⟩
+      · refine List.nodup_append.mpr ⟨hAn, hBn, ?_⟩
+        intro x hx y hy e
+        subst e
+        have := (mem_lsrPool (hA x hx)).2.2.2
+        have := (mem_lsPool (hB x hy)).2.2.2.1
+        contradiction
+      · intro x hx
+        rcases List.mem_append.mp hx with h | h
+        · obtain ⟨m1, m2, m3, m4⟩ := mem_lsrPool (hA x h)
+          exact ⟨m1, m2, m3, (by rw [m4]; decide)⟩
+        · obtain ⟨m1, m2, m3, _, m5⟩ := mem_lsPool (hB x h)
+          exact ⟨m1, m2, m3, m5⟩
+      · simp only [List.length_append, Int.natCast_add]
+        omega
+
+/-- enough eligible CPUs ⇒ exactly the wanted number of distinct CPUs is written. -/
+theorem exact_when_enough (f : FloatOps) (hf : FloatOK f) (b : Int) (oldN : Nat) (procs : List Proc) (pods : List PodC)
+    (res sys : List Int) (hnd : (cpusOf procs).Nodup)
+    (hpos : 0 < (lsrPool pods res sys procs).length + (lsPool pods res sys procs).length)
+    (hen : targetCpus f b oldN procs.length ≤
+      ((lsrPool pods res sys procs).length : Int) + (lsPool pods res sys procs).length) :
+    ∃ cs, adjustCPUSet f b oldN procs pods res sys = .write cs ∧
+      (cs.length : Int) = targetCpus f b oldN procs.length := by
+  have hprocs : 0 < procs.length := by
+    have h1 := List.length_filter_le (fun p => eligible res sys p && poolOf pods p.cpu == qLSR) procs
+    have h2 := List.length_filter_le
+      (fun p => eligible res sys p && !(poolOf pods p.cpu == qLSR) && poolOf pods p.cpu != qLSE) procs
+    unfold lsrPool lsPool at hpos
+    omega
+  obtain ⟨_, _, _, hc0, hc1⟩ := target_bounds f hf b oldN procs.length
+  have hc1 := hc1 hprocs
+  unfold adjustCPUSet
+  simp only []
+  have hne : ¬ ((lsrPool pods res sys procs).length + (lsPool pods res sys procs).length = 0) := by omega
+  have hne' : ((lsrPool pods res sys procs).length : Int) + (lsPool pods res sys procs).length ≠ 0 := by omega
+  simp only [hne, if_false, goDiv, hne']
+  generalize targetCpus f b oldN procs.length = c at hen hc0 hc1 ⊢
+  obtain ⟨s1, s2, s3, s4⟩ := split_fits c _ _ hc0 hen (by omega)
+  generalize Int.tdiv (c * (lsrPool pods res sys procs).length)
+      (((lsrPool pods res sys procs).length : Int) + (lsPool pods res sys procs).length) = q at s1 s2 s3 s4 ⊢
+  have hAl : ((if q > 0 then policy q (lsrPool pods res sys procs) else []).length : Int) = q := by
+    split
+    · exact (policy_exact q _ (pool_nodup hnd _) s1 s2).2.2
+    · simp; omega
+  have hBl : ((if c - q > 0 then policy (c - q) (lsPool pods res sys procs) else []).length : Int) = c - q := by
+    split
+    · exact (policy_exact (c - q) _ (pool_nodup hnd _) (by omega) s3).2.2
+    · simp; omega
+  have hlen : (((if q > 0 then policy q (lsrPool pods res sys procs) else []) ++
+      (if c - q > 0 then policy (c - q) (lsPool pods res sys procs) else [])).length : Int) = c := by
+    simp only [List.length_append, Int.natCast_add]; omega
+  refine ⟨_, applyResult_of_ne_nil ?_, hlen⟩
+  intro he
+  rw [he] at hlen
+  simp at hlen
+  omega
+
+/-! ### 8. quota mode -/
+
+theorem targetQuota_eq (b : Int) : targetQuota b = max (b * 100) 2000 := by
+  unfold targetQuota cfsPeriod beMinQuota
+  have : Int.tdiv (b * 100000) 1000 = b * 100 := by
+    have : b * 100000 = (b * 100) * 1000 := by omega
+    rw [this, Int.mul_tdiv_cancel _ (by decide)]
+  rw [this]
+  simp only []
+  split <;> omega
+
+/-- quota = budget × period floored by the minimum, except for the two documented rules:
+    bypass (|Δ| below 1 % of capacity × period and target above the minimum) and the 10 % step. -/
+theorem quota_eq (f : FloatOps) (hf : FloatOK f) (b cur cap : Int) (hc : 0 ≤ coresOf cap) :
+    adjustQuota f b cur cap =
+      if (targetQuota b - cur < coresOf cap * 1000 ∧ cur - targetQuota b < coresOf cap * 1000) ∧ targetQuota b ≠ 2000
+      then .bypass
+      else if targetQuota b - cur > coresOf cap * 10000 ∧ cur ≠ -1 then .write (cur + coresOf cap * 10000)
+      else .write (targetQuota b) := by
+  have key : ∀ (T X : Int) (bl sg : Bool) (P Q : Prop) [Decidable P] [Decidable Q], (bl = true ↔ P) → (sg = true ↔ Q) →
+      (if (bl && T != 2000) = true then QOutcome.bypass
+        else if (sg && cur != -1) = true then QOutcome.write X else QOutcome.write T) =
+      (if P ∧ T ≠ 2000 then QOutcome.bypass else if Q ∧ cur ≠ -1 then QOutcome.write X else QOutcome.write T) := by
+    intro T X bl sg P Q _ _ hb hs
+    cases bl <;> cases sg <;> simp at hb hs <;> simp [hb, hs]
+  unfold adjustQuota
+  simp only [hf.stepInc_eq _ hc]
+  exact key _ _ _ _ _ _ (hf.bypass_iff (targetQuota b) cur (coresOf cap) hc) (hf.step_iff (targetQuota b) cur (coresOf cap) hc)
+
+/-- neither rule applies ⇒ exactly the statement's value is written. -/
+theorem quota_plain (f : FloatOps) (hf : FloatOK f) (b cur cap : Int) (hc : 0 ≤ coresOf cap)
+    (hfar : coresOf cap * 1000 ≤ targetQuota b - cur ∨ coresOf cap * 1000 ≤ cur - targetQuota b ∨ targetQuota b = 2000)
+    (hstep : targetQuota b - cur ≤ coresOf cap * 10000 ∨ cur = -1) :
+    adjustQuota f b cur cap = .write (max (b * 100) 2000) := by
+  rw [quota_eq f hf b cur cap hc, ← targetQuota_eq]
+  have h1 : ¬ ((targetQuota b - cur < coresOf cap * 1000 ∧ cur - targetQuota b < coresOf cap * 1000) ∧ targetQuota b ≠ 2000) := by
+    omega
+  have h2 : ¬ (targetQuota b - cur > coresOf cap * 10000 ∧ cur ≠ -1) := by omega
+  simp [h1, h2]
+
+/-! ### non-vacuity -/
+
+/-- 8 CPUs, 2 sockets × 2 cores × 2 threads (the layout of the package's unit test). -/
+def demoProcs : List Proc :=
+  [⟨0, 0, 0, 0⟩, ⟨1, 0, 0, 0⟩, ⟨2, 1, 0, 0⟩, ⟨3, 1, 0, 0⟩, ⟨4, 2, 1, 1⟩, ⟨5, 2, 1, 1⟩, ⟨6, 3, 1, 1⟩, ⟨7, 3, 1, 1⟩]
+
+example : (cpusOf demoProcs).Nodup := by decide
+example : policy 3 demoProcs = [0, 1, 4] := by decide
+example : policy 9 demoProcs = [] := by decide
+/-- LSR pod on 0,6; LSE pod on 7; budget 3 CPUs: BE gets 2,3,4 (never 7). -/
+example : adjustCPUSet exactOps 3000 4 demoProcs [⟨true, qLSR, [0, 6]⟩, ⟨true, qLSE, [7]⟩] [] [] = .write [2, 3, 4] := by
+  decide
+/-- every CPU protected: untouched, no panic. -/
+example : adjustCPUSet exactOps 3000 2 [⟨0, 0, 0, 0⟩, ⟨1, 0, 0, 0⟩] [] [0, 1] [] = .untouched := by decide
+example : adjustQuota exactOps 20000 1000000 80000 = .write 1800000 := by decide
+example : budgetAgg exactOps 8000 65 (some 10) 500 3000 1000 1000 0 0 = 2200 := by decide
+
 end KoordVerif.C10
